@@ -7,28 +7,35 @@ import NaijaVerif.Gen.TypeRules
 /-
 C06 (evaluator part) — an accepted program never crashes the interpreter.
 
+State of the code: the `fix:` commit for D-06 / D-04 turned every panic site that an ACCEPTED
+program could reach (through dynamic typing, a short argument list on a dynamic receiver, a bare
+member expression, a non-name callee, an index-assignment root that is no variable, a call before
+the captured variable's `make`) into an ordinary runtime error.  The model keeps one constructor of
+`PanicSite` per such place: `site.fixed = true` — now the runtime error `site.fallback` — or a
+RESIDUAL site (`site.fixed = false`), still a panic in the source, which no accepted program
+reaches for a static reason.  `cfg.panics = false` is the current code, `true` the original tree.
+
 1. PANIC-SITE ACCOUNTING against the source: `Gen/PanicSites.lean` lists (regex over the current
    `/repo/src/runtime.rs`, `/repo/src/builtins/*.rs`) every `unreachable!/unimplemented!/assert!/
-   assert_eq!/.expect(/.unwrap()/args[i]` site.  `sites_accounted` proves that each of them is either
-   the site of a `PanicSite` constructor of the model (so the model can say "the run panics HERE",
-   and the correspondence compares the location with the real panic's) or is in the explicit list
-   `unreachableByConstruction`, each with its one-line justification.  A panic site added to the
-   Rust produces a label that is in neither list, and this file stops building.
-2. THE SITES ARE THE ONLY SOURCES OF A PANIC, and the switch `cfg.panics` is a faithful repair:
-   `repaired_simulates` — the run under `cfg.repaired` (every site reports `site.fallback`) equals
-   the run under `cfg` unless that one panics at `site` with output `out`, in which case it ends
-   with the runtime error `site.fallback` and the same output; `repaired_never_panics`.
-3. THE FULL STATEMENT `c06_full` (accepted by the resolver model ⇒ no fuel makes the run panic) is
-   FALSE on the current tree (defects D-06, D-04, D-09c, D-09d are open): `c06_full_is_false`, from
-   seven concrete accepted programs, each hitting a different site through a different route.
+   assert_eq!/.expect(/.unwrap()/args[i]` site.  `sites_accounted`: each of them is either the
+   label of a RESIDUAL `PanicSite` constructor or is in `unreachableByConstruction` with its
+   one-line justification.  A panic site added to the Rust (or a fixed site turned back into a
+   panic) produces a label that is in neither list, and this file stops building.
+2. THE FIX IS A REFINEMENT (`repaired_simulates`): the current code behaves like the original one,
+   except that a panic at a fixed site became the runtime error `site.fallback` with the same
+   output; `current_panics_only_residual`: the current code can only panic at a residual site —
+   for EVERY program, accepted or not.
+3. C06 (`c06_full`): accepted ⇒ no panic.  `c06_of_static_guarantees` proves it from the explicit,
+   narrow hypothesis `ResidualUnreachable` — accepted programs do not reach the nine residual
+   sites, each of which is a static guarantee of scanner / parser / resolver (listed at
+   `PanicSite.fixed`) whose proof belongs to the resolver model.  The seven historical witnesses
+   (`witnesses_panic_pinned`) now end with a runtime error (`witnesses_fixed`).
 4. THE DYNAMIC-TYPE DISCIPLINE, site by site: `arith_panics_iff`, `unary_panics_iff`,
    `truthy_panics_iff`, `logicRhs_panics_iff`, `indexRead_panics_iff` characterise by the RUNTIME TYPE
-   TAGS of the operands exactly when an operator / condition / index site fires; `c06_partial`: a
-   program none of whose evaluation steps meets such a type combination — stated through the
-   repaired run — does not panic.
-5. THE FINITE OBLIGATION OF D-09d: for every (operator, τ₁, τ₂) the real checker accepts for
-   literal-typed operands (`Gen/TypeRules.lean`, probed) the operator dispatch must have a
-   non-panic case; it has, except for exactly the 15 combinations of `d09d_offenders`.
+   TAGS of the operands exactly when an operator / condition / index step reports its site.
+5. THE FINITE OBLIGATION OF D-09d (`d09d`): no (operator, τ₁, τ₂) the real checker accepts for
+   literal-typed operands (`Gen/TypeRules.lean`, probed each run) lacks a case in the runtime's
+   operator dispatch.
 -/
 namespace NaijaVerif.Props.C06Eval
 open NaijaVerif NaijaVerif.Eval
@@ -41,7 +48,7 @@ def unreachableByConstruction : List (Bytes × String) := [
     "FunctionInfo.params of a function found by function_by_body is Some: push_function stores Some(params); only the root function has None and the root block is no FunctionDef body"),
   (b!"runtime.register_function.expect.1",
     "hoist_block_functions runs right after push_scope_with_capacity in exec_block_with_flow, so function_scopes is non-empty"),
-  (b!"runtime.eval_expr.unreachable.2",
+  (b!"runtime.eval_expr.unreachable.0",
     "number/number arm: And/Or are matched by the two earlier arms of `match op`, the remaining eight operators all have a case"),
   (b!"runtime.eval_expr.unwrap.0", "fmt::Write into LenWriter never fails"),
   (b!"runtime.eval_expr.unwrap.1", "fmt::Write into ArenaString never fails (allocation failure aborts)"),
@@ -61,7 +68,7 @@ def unreachableByConstruction : List (Bytes × String) := [
   (b!"runtime.eval_process_command_call_mut.unreachable.0",
     "called only when requires_mut_receiver() holds, which excludes Run (MutM.ofName)"),
   (b!"runtime.eval_array_member_call.expect.0", "the caller matched ArrayBuiltin::from_name(field) = Some"),
-  (b!"runtime.eval_array_member_call.unreachable.1",
+  (b!"runtime.eval_array_member_call.unreachable.0",
     "push/pop/reverse were dispatched by name in eval_member_call before the receiver was evaluated"),
   (b!"runtime.eval_process_command_call.unreachable.0",
     "every ProcessCommandBuiltin except Run was dispatched by name in eval_member_call"),
@@ -79,7 +86,7 @@ def unreachableByConstruction : List (Bytes × String) := [
     "x[j + k - 1]: in range — Props/C13 maximalSuffix_total (the loop guard is j + k ≤ n); the model keeps the constructor twMaximalSuffix for the pre-fix tree (StrOps.pinnedD13)")
 ]
 
-def modelLabels : List Bytes := PanicSite.all.map PanicSite.label
+def modelLabels : List Bytes := PanicSite.all.filterMap PanicSite.srcLabel
 
 /-- `PanicSite.all` really lists every constructor. -/
 theorem all_complete : ∀ s : PanicSite, s ∈ PanicSite.all := by
@@ -93,8 +100,12 @@ theorem sites_accounted :
     ∀ l ∈ Gen.PanicSites.labels, l ∈ modelLabels ∨ l ∈ unreachableByConstruction.map (·.1) := by
   decide +kernel
 
-/-- Every site the model can report exists in the source (so its line can be compared). -/
-theorem model_sites_exist : ∀ s ∈ PanicSite.all, s.label ∈ Gen.PanicSites.labels := by
+/-- Every residual site exists in the source (so its line can be compared); the fixed ones have
+no label: they are no panic sites. -/
+theorem model_sites_exist : ∀ l ∈ modelLabels, l ∈ Gen.PanicSites.labels := by
+  decide +kernel
+
+theorem residual_iff_label : ∀ s ∈ PanicSite.all, (s.fixed = false ↔ s.srcLabel.isSome = true) := by
   decide +kernel
 
 /-- No site is claimed twice (reachable and unreachable at once), except the documented
@@ -103,12 +114,15 @@ theorem accounting_disjoint :
     ∀ l ∈ modelLabels, l ∈ unreachableByConstruction.map (·.1) → l = b!"tw.maximal_suffix.index.1" := by
   decide +kernel
 
-/-! ### 2. The sites are the only sources of a panic -/
+/-! ### 2. The fix is a refinement; the current code panics only at residual sites -/
 
-/-- The repaired configuration simulates the pinned one. -/
+/-- The current code (`cfg.repaired`) against the original one (`cfg`, any setting): same run,
+except that a panic at a fixed site is the runtime error `site.fallback` with the same output. -/
 theorem repaired_simulates {N : Type} [NumOps N] (cfg : RunCfg) (fuel : Nat) (p : Block) :
     match (run cfg fuel p : Outcome N) with
-    | .panic site out => ∃ sp, (run cfg.repaired fuel p : Outcome N) = .rt site.fallback sp out
+    | .panic site out =>
+        (site.fixed = true → ∃ sp, (run cfg.repaired fuel p : Outcome N) = .rt site.fallback sp out) ∧
+        (site.fixed = false → (run cfg.repaired fuel p : Outcome N) = .panic site out)
     | r => (run cfg.repaired fuel p : Outcome N) = r := by
   unfold run
   have h := (sim_all (N := N) cfg fuel).block p (State.init cfg)
@@ -118,27 +132,34 @@ theorem repaired_simulates {N : Type} [NumOps N] (cfg : RunCfg) (fuel : Nat) (p 
   | ok a st => rw [hr] at h; simp only [Sim] at h; rw [h]
   | err k sp st => rw [hr] at h; simp only [Sim] at h; rw [h]
   | fuel => rw [hr] at h; simp only [Sim] at h; rw [h]
-  | panic s st => rw [hr] at h; obtain ⟨sp, h⟩ := h; rw [h]; exact ⟨sp, rfl⟩
+  | panic s st =>
+    rw [hr] at h
+    obtain ⟨h1, h2⟩ := h
+    refine ⟨fun hf => ?_, fun hf => ?_⟩
+    · obtain ⟨sp, h⟩ := h1 hf; rw [h]; exact ⟨sp, rfl⟩
+    · rw [h2 hf]
 
-/-- With every site turned into a runtime error nothing else can panic: the enumeration of
-`PanicSite` is complete for the model. -/
-theorem repaired_never_panics {N : Type} [NumOps N] (cfg : RunCfg) (fuel : Nat) (p : Block) :
-    (run cfg.repaired fuel p : Outcome N).isPanic = false := by
-  have h := repaired_simulates (N := N) cfg.repaired fuel p
+/-- THE CURRENT CODE PANICS ONLY AT RESIDUAL SITES — for every program, every fuel, every number
+type and host configuration. -/
+theorem current_panics_only_residual {N : Type} [NumOps N] (cfg : RunCfg) (fuel : Nat) (p : Block)
+    (site : PanicSite) (out : List (Value N)) (h : run cfg.repaired fuel p = .panic site out) :
+    site.fixed = false := by
+  have hs := repaired_simulates (N := N) cfg.repaired fuel p
   have hrr : cfg.repaired.repaired = cfg.repaired := rfl
-  rw [hrr] at h
-  cases hr : (run cfg.repaired fuel p : Outcome N) with
-  | panic s out => rw [hr] at h; obtain ⟨sp, h⟩ := h; cases h
-  | _ => rfl
+  rw [hrr, h] at hs
+  cases hf : site.fixed with
+  | false => rfl
+  | true => obtain ⟨sp, hc⟩ := hs.1 hf; cases hc
 
-/-- A panic of the pinned code is a runtime error of the repaired code with the same output. -/
+/-- A panic of the original code at a fixed site is a runtime error of the current code with the
+same output. -/
 theorem panic_becomes_error {N : Type} [NumOps N] (cfg : RunCfg) (fuel : Nat) (p : Block) (site : PanicSite)
-    (out : List (Value N)) (h : run cfg fuel p = .panic site out) :
+    (out : List (Value N)) (h : run cfg fuel p = .panic site out) (hf : site.fixed = true) :
     ∃ sp, (run cfg.repaired fuel p : Outcome N) = .rt site.fallback sp out := by
   have := repaired_simulates (N := N) cfg fuel p
-  rw [h] at this; exact this
+  rw [h] at this; exact this.1 hf
 
-/-! ### 3. The full statement, and why it is false today -/
+/-! ### 3. The full statement -/
 
 /-- Accepted: the resolver model reports no diagnostic (all its diagnostics are errors). The
 program that runs is the resolver's annotated copy. -/
@@ -146,11 +167,40 @@ def Accepted (p : Block) : Prop := (Resolve.resolve p).diags = []
 
 instance (p : Block) : Decidable (Accepted p) := by unfold Accepted; exact inferInstance
 
-/-- C06 for the evaluator: an accepted program never panics, whatever the numbers, the host
-configuration and the fuel. -/
+/-- C06 for the evaluator (current code): an accepted program never panics, whatever the numbers,
+the host configuration and the fuel. -/
 def c06_full : Prop :=
-  ∀ (N : Type) [NumOps N] (cfg : RunCfg), cfg.panics = true → ∀ p : Block, Accepted p →
+  ∀ (N : Type) [NumOps N] (cfg : RunCfg), cfg.panics = false → ∀ p : Block, Accepted p →
     ∀ fuel : Nat, (run cfg fuel (Resolve.resolve p).root : Outcome N).isPanic = false
+
+/-- The remaining hypothesis, explicit and narrow: an accepted program does not reach one of the
+nine residual sites (`PanicSite.fixed = false`): a number lexeme that does not parse, a user or
+global call with the wrong argument count, a callee that is not hoisted, `comot`/`next` leaving a
+function body, a parameter id outside the local range, an index assignment without an index, an
+out-of-range read in `maximal_suffix`.  Each is a guarantee of scanner / parser / resolver (C07,
+C09, C13); none involves run-time types. -/
+def ResidualUnreachable : Prop :=
+  ∀ (N : Type) [NumOps N] (cfg : RunCfg), cfg.panics = false → ∀ p : Block, Accepted p →
+    ∀ (fuel : Nat) (site : PanicSite) (out : List (Value N)),
+      run cfg fuel (Resolve.resolve p).root = .panic site out → site.fixed = true
+
+theorem c06_of_static_guarantees (h : ResidualUnreachable) : c06_full := by
+  intro N _ cfg hp p hacc fuel
+  cases hr : (run cfg fuel (Resolve.resolve p).root : Outcome N) with
+  | panic site out =>
+    exfalso
+    have hfix := h N cfg hp p hacc fuel site out hr
+    have hc : cfg.repaired = cfg := by
+      cases cfg; simp only [RunCfg.repaired] at *; subst hp; rfl
+    have := current_panics_only_residual (N := N) cfg fuel _ site out (by rw [hc]; exact hr)
+    rw [hfix] at this; cases this
+  | _ => rfl
+
+/-- …and conversely: C06 is EXACTLY the unreachability of the residual sites. -/
+theorem static_guarantees_of_c06 (h : c06_full) : ResidualUnreachable := by
+  intro N _ cfg hp p hacc fuel site out hr
+  have := h N cfg hp p hacc fuel
+  rw [hr] at this; simp [Outcome.isPanic] at this
 
 /-- `do id(x) start return x end shout(true and id(5))` — right operand of `and`, number, through a
 parameter (D-06). -/
@@ -169,31 +219,37 @@ def witnessBoolReceiver : Block := (.mk [(.fnDef [103] ⟨0, 7⟩ [{ name := [98
 /-- `make x get "s" shout(x.len)` — bare member expression (D-09c). -/
 def witnessBareMember : Block := (.mk [(.assign [120] ⟨5, 6⟩ (.str (.static [115]) ⟨11, 14⟩) none none ⟨0, 20⟩), (.expr (.call (.var [115, 104, 111, 117, 116] none ⟨15, 20⟩) [(.member (.var [120] none ⟨21, 22⟩) [108, 101, 110] ⟨23, 26⟩ ⟨21, 27⟩)] none ⟨15, 27⟩) none ⟨15, 27⟩)] ⟨0, 27⟩)
 
+/-- The five dynamic-typing / call-before-declaration witnesses are accepted by the resolver model
+(the two statically decidable shapes, `witnessLiteral` (D-09d) and `witnessBareMember` (D-09c),
+are being rejected by the resolver since its own repair, so nothing is claimed about them here). -/
 theorem witnesses_accepted :
-    Accepted witnessAnd ∧ Accepted witnessIndexBase ∧ Accepted witnessReassigned ∧ Accepted witnessLiteral ∧
-    Accepted witnessCallBeforeDecl ∧ Accepted witnessBoolReceiver ∧ Accepted witnessBareMember := by
+    Accepted witnessAnd ∧ Accepted witnessIndexBase ∧ Accepted witnessReassigned ∧
+    Accepted witnessCallBeforeDecl ∧ Accepted witnessBoolReceiver := by
   decide +kernel
 
-/-- Each witness panics in the model (toy numbers), at the site named. -/
-theorem witnesses_panic :
-    Toy.panicSite (run Toy.cfg 30 (Resolve.resolve witnessAnd).root) = some .andRhs ∧
-    Toy.panicSite (run Toy.cfg 30 (Resolve.resolve witnessIndexBase).root) = some .indexBase ∧
-    Toy.panicSite (run Toy.cfg 30 (Resolve.resolve witnessReassigned).root) = some .strNumOp ∧
-    Toy.panicSite (run Toy.cfg 30 (Resolve.resolve witnessLiteral).root) = some .mismatchOp ∧
-    Toy.panicSite (run Toy.cfg 30 (Resolve.resolve witnessCallBeforeDecl).root) = some .varLookup ∧
-    Toy.panicSite (run Toy.cfg 30 (Resolve.resolve witnessBoolReceiver).root) = some .boolReceiver ∧
-    Toy.panicSite (run Toy.cfg 30 (Resolve.resolve witnessBareMember).root) = some .bareMember := by
+/-- The original tree (`panics := true`): each witness panicked, at the site named. -/
+def Toy.pinned : RunCfg := { Toy.cfg with panics := true }
+
+theorem witnesses_panic_pinned :
+    Toy.panicSite (run Toy.pinned 30 (Resolve.resolve witnessAnd).root) = some .andRhs ∧
+    Toy.panicSite (run Toy.pinned 30 (Resolve.resolve witnessIndexBase).root) = some .indexBase ∧
+    Toy.panicSite (run Toy.pinned 30 (Resolve.resolve witnessReassigned).root) = some .strNumOp ∧
+    Toy.panicSite (run Toy.pinned 30 (Resolve.resolve witnessLiteral).root) = some .mismatchOp ∧
+    Toy.panicSite (run Toy.pinned 30 (Resolve.resolve witnessCallBeforeDecl).root) = some .varLookup ∧
+    Toy.panicSite (run Toy.pinned 30 (Resolve.resolve witnessBoolReceiver).root) = some .boolReceiver ∧
+    Toy.panicSite (run Toy.pinned 30 (Resolve.resolve witnessBareMember).root) = some .bareMember := by
   decide +kernel
 
-theorem c06_full_is_false : ¬ c06_full := by
-  intro h
-  have h1 := h Int Toy.cfg rfl witnessAnd witnesses_accepted.1 30
-  have h2 := witnesses_panic.1
-  cases hr : (run Toy.cfg 30 (Resolve.resolve witnessAnd).root : Outcome Int) with
-  | panic s out => rw [hr] at h1; simp [Outcome.isPanic] at h1
-  | ok out => rw [hr] at h2; simp [Toy.panicSite] at h2
-  | rt k sp out => rw [hr] at h2; simp [Toy.panicSite] at h2
-  | fuelOut => rw [hr] at h2; simp [Toy.panicSite] at h2
+/-- The current code: the same programs end with a reported runtime error. -/
+theorem witnesses_fixed :
+    Toy.rtKind (run Toy.cfg 30 (Resolve.resolve witnessAnd).root) = some .typeMismatch ∧
+    Toy.rtKind (run Toy.cfg 30 (Resolve.resolve witnessIndexBase).root) = some .invalidIndex ∧
+    Toy.rtKind (run Toy.cfg 30 (Resolve.resolve witnessReassigned).root) = some .typeMismatch ∧
+    Toy.rtKind (run Toy.cfg 30 (Resolve.resolve witnessLiteral).root) = some .typeMismatch ∧
+    Toy.rtKind (run Toy.cfg 30 (Resolve.resolve witnessCallBeforeDecl).root) = some .undefinedVariable ∧
+    Toy.rtKind (run Toy.cfg 30 (Resolve.resolve witnessBoolReceiver).root) = some .typeMismatch ∧
+    Toy.rtKind (run Toy.cfg 30 (Resolve.resolve witnessBareMember).root) = some .typeMismatch := by
+  decide +kernel
 
 /-! ### 4. The dynamic-type discipline, site by site -/
 
@@ -273,38 +329,7 @@ theorem indexRead_panics_iff {N : Type} [NumOps N] (base idx : Value N) (isp : S
   | host h => cases h <;> rfl
   | _ => rfl
 
-/-- An ending no panic site can turn into. -/
-def safeEnding {N : Type} : Outcome N → Bool
-  | .rt k _ _ => k != .typeMismatch && k != .invalidIndex
-  | _ => true
-
-/-- PARTIAL C06: a run whose repaired twin does not end in a runtime error does not panic; and a run
-whose repaired twin ends in a runtime error of a kind no site falls back to (anything but
-`TypeMismatch` / `InvalidIndex`: division by zero, index out of bounds, the process errors) does not
-panic either.  (The hypothesis is decidable by running the model.) -/
-theorem c06_partial {N : Type} [NumOps N] (cfg : RunCfg) (fuel : Nat) (p : Block)
-    (h : safeEnding (run cfg.repaired fuel p : Outcome N) = true) :
-    (run cfg fuel p : Outcome N).isPanic = false := by
-  cases hr : (run cfg fuel p : Outcome N) with
-  | panic site out =>
-    obtain ⟨sp, hs⟩ := panic_becomes_error cfg fuel p site out hr
-    rw [hs] at h
-    exfalso
-    cases site <;> simp [PanicSite.fallback, safeEnding] at h
-  | _ => rfl
-
-/-- `do f(a, i) start return a[i] end make xs get [1, 2] shout(f(xs, 1)) shout(f(xs, 2))` — dynamic
-routes used at the right types; ends with `IndexOutOfBounds` after printing `2`. -/
-def partialExample : Block := (.mk [(.fnDef [102] ⟨0, 10⟩ [{ name := [97], span := ⟨5, 6⟩, bind := none }, { name := [105], span := ⟨8, 9⟩, bind := none }] (.mk [(.ret (some (.index (.var [97] none ⟨24, 25⟩) (.var [105] none ⟨26, 27⟩) ⟨25, 28⟩ ⟨24, 28⟩)) none ⟨17, 32⟩)] ⟨17, 32⟩) none none ⟨0, 37⟩), (.assign [120, 115] ⟨38, 40⟩ (.array [(.num [49] ⟨46, 47⟩), (.num [50] ⟨49, 50⟩)] ⟨45, 51⟩) none none ⟨33, 57⟩), (.expr (.call (.var [115, 104, 111, 117, 116] none ⟨52, 57⟩) [(.call (.var [102] none ⟨58, 59⟩) [(.var [120, 115] none ⟨60, 62⟩), (.num [49] ⟨64, 65⟩)] none ⟨58, 67⟩)] none ⟨52, 73⟩) none ⟨52, 73⟩), (.expr (.call (.var [115, 104, 111, 117, 116] none ⟨68, 73⟩) [(.call (.var [102] none ⟨74, 75⟩) [(.var [120, 115] none ⟨76, 78⟩), (.num [50] ⟨80, 81⟩)] none ⟨74, 83⟩)] none ⟨68, 83⟩) none ⟨68, 83⟩)] ⟨0, 83⟩)
-
-example : Accepted partialExample := by decide +kernel
-example : Toy.summary (run Toy.cfg.repaired 30 (Resolve.resolve partialExample).root) = ([b!"2"], 1) ∧
-    Toy.rtKind (run Toy.cfg.repaired 30 (Resolve.resolve partialExample).root) = some .indexOutOfBounds := by
-  decide +kernel
-example : (run Toy.cfg 30 (Resolve.resolve partialExample).root : Outcome Int).isPanic = false :=
-  c06_partial Toy.cfg 30 _ (by decide +kernel)
-
-/-! ### 5. The finite obligation of D-09d -/
+/-! ### 5. The finite table of D-09d -/
 
 /-- Representative runtime values of a literal static type (by `arith_panics_iff` & co. only the
 type tag matters, except for the left operand of `and` / `or`, where both booleans are tried). -/
@@ -328,28 +353,23 @@ def binPanics (op : BinOp) (l r : Value Int) : Bool :=
     | none => false
 
 /-- The (operator, τ₁, τ₂) the REAL checker accepts for literal-typed operands although the
-runtime's dispatch has no case for them. -/
+runtime's dispatch has no case for them (every run-time instance ends at a site: a `TypeMismatch`
+runtime error in the current code, a panic in the original one). -/
 def d09dOffenders : List (BinOp × VType × VType) :=
   (Gen.TypeRules.binary.filter (fun q =>
       q.2.2.2.1 && (reprs q.2.1).any fun a => (reprs q.2.2.1).any fun b => binPanics q.1 a b)).map
     (fun q => (q.1, q.2.1, q.2.2.1))
 
-/-- The statement the D-06 / D-09d repair has to establish. -/
+/-- THE FINITE OBLIGATION OF D-09d: every (operator, τ₁, τ₂) the real checker accepts for
+literal-typed operands has a case in the runtime's operator dispatch. -/
 def d09d_full : Prop := d09dOffenders = []
 
-/-- On the current tree exactly these fifteen: `string add` anything that is neither string nor
-number (both ways), and `null or` a non-boolean. Every other accepted literal-typed combination
-has a non-panic case. -/
-theorem d09d_offenders :
-    d09dOffenders =
-      [(.add, .string, .bool), (.add, .string, .array), (.add, .string, .processCommand),
-       (.add, .string, .processResult), (.add, .string, .null), (.add, .bool, .string),
-       (.add, .array, .string), (.add, .processCommand, .string), (.add, .processResult, .string),
-       (.add, .null, .string), (.or, .null, .number), (.or, .null, .string), (.or, .null, .array),
-       (.or, .null, .processCommand), (.or, .null, .processResult)] := by
+/-- Holds since the `fix:` commit that made `add` and `and`/`or` reject operand types without a
+run-time meaning (before it there were exactly fifteen offenders: `string add` anything that is
+neither string nor number, both ways, and `null or` a non-boolean).  Re-checked against the freshly
+probed `Gen/TypeRules.lean` on every run. -/
+theorem d09d : d09d_full := by
+  unfold d09d_full
   decide +kernel
-
-theorem d09d_full_is_false : ¬ d09d_full := by
-  unfold d09d_full; rw [d09d_offenders]; simp
 
 end NaijaVerif.Props.C06Eval
